@@ -366,5 +366,23 @@ def load(dirpath):
     with open(os.path.join(dirpath, 'lib.json')) as f:
         d_lib = json.load(f)
     with open(os.path.join(dirpath, 'bin.json')) as f:
-        d_bin = json.load(f)
+        raw = f.read()
+    # the binary sees library items under their visible (re-export) paths; map them to the real
+    # definition paths the library facts use
+    i = raw.rfind('"aliases":')
+    if i > 0:
+        try:
+            aliases = json.loads(raw[i + len('"aliases":'):raw.rindex('}')])
+        except ValueError:
+            aliases = []
+        amap = {}
+        for vis, real in aliases:
+            if vis != real and not real.startswith(vis + '::'):
+                amap[vis] = real
+        if amap:
+            head = raw[:i]
+            rx = re.compile('(?<![A-Za-z0-9_:])(' + '|'.join(re.escape(k) for k in sorted(amap, key=len, reverse=True)) + r')(?![A-Za-z0-9_])')
+            head = rx.sub(lambda m: amap[m.group(1)], head)
+            raw = head + raw[i:]
+    d_bin = json.loads(raw)
     return Facts(d_lib, d_bin)
